@@ -1,7 +1,7 @@
 (* C15 non-vacuity: concrete inputs meeting the hypotheses of the theorems in
    Props.v, and concrete instances of the abstract codings / primitives that
    satisfy the section hypotheses (so the hypotheses are consistent). *)
-From CJ Require Import Common.Base Common.BaseProofs C15.Model C15.Proofs C15.ModelName C15.ProofsName C15.ModelObf C15.ProofsObf C15.ModelAny C15.ProofsAny C15.ModelDns C15.ProofsDns C15.ModelB32 C15.ModelExch C15.ProofsExch C15.ModelPb C15.ProofsPb C15.ModelDot C15.ProofsDot C15.ModelSeq C15.ProofsSeq C15.ModelStream C15.ProofsStream C15.Run C15.ProofsCount.
+From CJ Require Import Common.Base Common.BaseProofs C15.Model C15.Proofs C15.ModelName C15.ProofsName C15.ModelObf C15.ProofsObf C15.ModelAny C15.ProofsAny C15.ModelDns C15.ProofsDns C15.ModelB32 C15.ModelExch C15.ProofsExch C15.ModelPb C15.ProofsPb C15.ModelDot C15.ProofsDot C15.ModelSeq C15.ProofsSeq C15.ModelStream C15.ProofsStream C15.Run C15.ProofsCount C15.ProofsTxtLen.
 From Coq Require Import Lia ZifyN ZifyNat ZifyBool.
 Ltac Zify.zify_post_hook ::= Z.div_mod_to_equations.
 
@@ -334,3 +334,8 @@ Example ex_chunks_count :
   length (chunks 63 (repeat 7 127)) = 3%nat /\ map blen (chunks 63 (repeat 7 127)) = [63; 63; 1] /\
   length (chunks 63 (repeat 7 126)) = 2%nat /\ chunks 63 [] = [] /\ (blen (repeat 7 127) + 62) / 63 = 3.
 Proof. vm_compute. repeat split; reflexivity. Qed.
+
+(* ---- TXT RDATA size at the string boundaries: 0 -> 1, 255 -> 256, 256 -> 258, 510 -> 512, 511 -> 514 ---- *)
+Example ex_txt_length :
+  map (fun k => blen (enc_txt (repeat 7 k))) [0; 1; 255; 256; 510; 511]%nat = [1; 2; 256; 258; 512; 514].
+Proof. vm_compute. reflexivity. Qed.
